@@ -530,7 +530,9 @@ def judge(ctx: Any, case: dict[str, Any], tdesc: dict[str, Any], node: dcgen.Nod
     if status in ("hang", "dead") or not server_alive:
         fail_once(ctx, case, f"C02:server-died:{path}:{transport}", f"the server stopped answering after echoing a {path} value (status {status})")
         return
-    if status == "ok":
+    if status == "ok" and none_bad:
+        fail_once(ctx, case, f"C02:none-accepted:{path}", f"None was accepted for a parameter / result that is not Optional ({transport})")
+    elif status == "ok":
         gj = dcgen.to_j(got, strict=False)
         if fit and not none_bad:
             want = dcgen.to_j(expected(node, sent), strict=False)
@@ -824,7 +826,7 @@ def run(ctx: Any) -> None:
     check_native_env(ctx)
     ct, cv = corpus_types()
     run_values(ctx, ct, cv, "corpus")
-    n_bundles = ctx.budget(20, 500)
+    n_bundles = ctx.budget(32, 500)
     per_type = 8 if ctx.tier == "quick" else 10
     for b in range(n_bundles):
         types = [gen_ty(rng) for _ in range(12)]
@@ -833,7 +835,7 @@ def run(ctx: Any) -> None:
         if ctx.elapsed() > (28 if ctx.tier == "quick" else 500):
             ctx.note("value_bundles_run", b + 1)
             break
-    n_sigs = ctx.budget(240, 3000)
+    n_sigs = ctx.budget(300, 3000)
     pending: list[Any] = []
     for sidx in range(n_sigs):
         sig = gen_signature(rng)
